@@ -219,9 +219,14 @@ def shard_long_text(args):
     acc = Acc(seed=seed, sample_stride=997)
     limit = 20000 if tier == "thorough" else 7700
     seqs = ["\x1b[0;1;3;4;5;7;31;41;39;49;2;32;45m", "\x1b[" + ";".join(["1", "4", "32", "44"] * 7) + "m"]
-    for off in range(idx, limit, nshards):
+    offs = set(range(limit))
+    for m in range(500, 70001, 500):  # ... and the neighbourhood of every multiple of 500 up to 70 000
+        offs.update(range(m - 3, m + 3))
+    for oi, off in enumerate(sorted(offs)):
+        if oi % nshards != idx:
+            continue
         for q, seq in enumerate(seqs):
-            if q == 1 and off % 2:
+            if q == 1 and off % 2 and off < limit:
                 continue
             s = "a" * off + seq + "b" * 30 + "\x1b[0m" + "c"
             acc.case(True, key=("long", off, q), sample=lambda: {"lead": off, "sequence": seq})
